@@ -448,6 +448,90 @@ fn gen_manifest(rng: &mut StdRng) -> J {
     json!({"kind": kind, "pre": pre, "nc": nc, "ins": ins})
 }
 
+/// hand-picked boundary sequences (first / last use, consume-then-use, lock and unlock through clones and
+/// drop-all, exactly dangling, shape rules), each instantiated for every manifest kind configuration
+fn scenarios() -> Vec<J> {
+    let call = |bs: Vec<u32>, ps: Vec<u32>, rs: Vec<u32>, named: Vec<u32>, tgt: i64, blob: u32| json!({"op": "call", "tgt": tgt, "bs": bs, "ps": ps, "rs": rs, "as": named, "blob": blob});
+    let dep = |bs: Vec<u32>| call(bs, vec![], vec![], vec![], -1, 0);
+    let i = |op: &str| json!({"op": op});
+    let b = |op: &str, x: u32| json!({"op": op, "b": x});
+    let p = |op: &str, x: u32| json!({"op": op, "p": x});
+    let bodies: Vec<(&str, Vec<J>)> = vec![
+        ("empty", vec![]),
+        ("take-deposit", vec![i("take"), dep(vec![0])]),
+        ("take-dangling", vec![i("take")]),
+        ("use-before-create", vec![dep(vec![0]), i("take")]),
+        ("double-consume", vec![i("take"), b("return", 0), b("return", 0)]),
+        ("consume-twice-in-one-call", vec![i("take"), dep(vec![0, 0])]),
+        ("use-after-consume", vec![i("take"), b("return", 0), b("proof_b", 0)]),
+        ("second-bucket-first-consumed", vec![i("take"), b("return", 0), i("take"), dep(vec![1])]),
+        ("locked-return", vec![i("take"), b("proof_b", 0), b("return", 0)]),
+        ("locked-deposit", vec![i("take"), b("proof_b", 0), dep(vec![0])]),
+        ("unlock-by-drop", vec![i("take"), b("proof_b", 0), p("drop", 0), dep(vec![0])]),
+        ("unlock-by-push", vec![i("take"), b("proof_b", 0), p("push", 0), dep(vec![0])]),
+        ("clone-keeps-lock", vec![i("take"), b("proof_b", 0), p("clone", 0), p("drop", 0), dep(vec![0])]),
+        ("clone-both-dropped", vec![i("take"), b("proof_b", 0), p("clone", 0), p("drop", 0), p("drop", 1), dep(vec![0])]),
+        ("unlock-by-drop-all", vec![i("take"), b("proof_b", 0), p("clone", 0), i("drop_all"), dep(vec![0])]),
+        ("unlock-by-drop-named", vec![i("take"), b("proof_b", 0), i("drop_named"), dep(vec![0])]),
+        ("unlock-by-passing-proof", vec![i("take"), b("proof_b", 0), call(vec![], vec![0], vec![], vec![], -1, 0), dep(vec![0])]),
+        ("proof-after-drop-all", vec![i("pop"), i("drop_all"), p("drop", 0)]),
+        ("proof-double-drop", vec![i("proof_az"), p("drop", 0), p("drop", 0)]),
+        ("clone-of-dropped", vec![i("pop"), p("drop", 0), p("clone", 0)]),
+        ("proof-never-created", vec![p("push", 0)]),
+        ("proof-left-alive", vec![i("pop")]),
+        ("alloc-used", vec![i("alloc"), call(vec![], vec![], vec![0], vec![], -1, 0)]),
+        ("alloc-dangling", vec![i("alloc")]),
+        ("reservation-twice", vec![i("alloc"), call(vec![], vec![], vec![0], vec![], -1, 0), call(vec![], vec![], vec![0], vec![], -1, 0)]),
+        ("reservation-before-alloc", vec![call(vec![], vec![], vec![0], vec![], -1, 0), i("alloc")]),
+        ("named-arg-before-alloc", vec![call(vec![], vec![], vec![], vec![0], -1, 0)]),
+        ("named-target-before-alloc", vec![call(vec![], vec![], vec![], vec![], 0, 0)]),
+        ("named-after-alloc", vec![i("alloc"), call(vec![], vec![], vec![0], vec![0], -1, 0)]),
+        ("blob-declared", vec![call(vec![], vec![], vec![], vec![], -1, 1)]),
+        ("blob-undeclared", vec![call(vec![], vec![], vec![], vec![], -1, 2)]),
+        ("assert-next-then-call", vec![i("assert_next"), dep(vec![])]),
+        ("assert-next-then-take", vec![i("assert_next"), i("take"), dep(vec![0])]),
+        ("assert-next-at-end", vec![i("assert_next")]),
+        ("assert-bucket-live", vec![i("take"), b("assert_bucket", 0), dep(vec![0])]),
+        ("assert-bucket-consumed", vec![i("take"), dep(vec![0]), b("assert_bucket", 0)]),
+        ("assert-bucket-unknown", vec![b("assert_bucket", 0)]),
+        ("verify-parent", vec![i("verify_parent")]),
+        ("yield-parent-bucket", vec![i("take"), json!({"op": "yield_parent", "bs": [0], "ps": []})]),
+        ("yield-parent-proof", vec![i("pop"), json!({"op": "yield_parent", "bs": [], "ps": [0]})]),
+        ("yield-parent-middle", vec![json!({"op": "yield_parent", "bs": [], "ps": []}), i("take"), dep(vec![0])]),
+        ("yield-child-0", vec![json!({"op": "yield_child", "child": 0, "bs": [], "ps": []})]),
+        ("yield-child-1", vec![json!({"op": "yield_child", "child": 1, "bs": [], "ps": []})]),
+        ("yield-child-bucket", vec![i("take"), json!({"op": "yield_child", "child": 0, "bs": [0], "ps": []})]),
+        ("yield-child-proof", vec![i("pop"), json!({"op": "yield_child", "child": 0, "bs": [], "ps": [0]})]),
+        ("yield-child-locked-bucket", vec![i("take"), b("proof_b", 0), json!({"op": "yield_child", "child": 0, "bs": [0], "ps": []})]),
+        ("burn", vec![i("take"), b("burn", 0)]),
+    ];
+    let configs = [("v1", 0, 0), ("system", 0, 0), ("system", 1, 0), ("v2", 0, 0), ("v2", 0, 1), ("sub", 0, 0), ("sub", 0, 1)];
+    let mut out = vec![];
+    for (name, body) in bodies.iter() {
+        for (kind, pre, nc) in configs {
+            let mut ins = body.clone();
+            let mut variants = vec![ins.clone()];
+            if kind == "sub" {
+                // a subintent with and without its closing YIELD_TO_PARENT
+                ins.push(json!({"op": "yield_parent", "bs": [], "ps": []}));
+                variants.push(ins);
+            }
+            if kind == "system" && pre == 1 {
+                // the pre-allocated reservation consumed / left dangling
+                let mut used = body.clone();
+                let shift = |j: &J| -> J { let mut j = j.clone(); if j["op"] == "call" { let rs: Vec<u64> = j["rs"].as_array().unwrap().iter().map(|x| x.as_u64().unwrap() + 1).collect(); j["rs"] = json!(rs); } j };
+                used = used.iter().map(shift).collect();
+                used.push(call(vec![], vec![], vec![0], vec![], -1, 0));
+                variants.push(used);
+            }
+            for v in variants {
+                out.push(json!({"scenario": name, "kind": kind, "pre": pre, "nc": nc, "ins": v}));
+            }
+        }
+    }
+    out
+}
+
 fn record(args: &Args) {
     let seed = args.u64("seed", 1);
     let n = args.u64("n", 500);
@@ -455,6 +539,14 @@ fn record(args: &Args) {
     let mut out = Out::new();
     let mut w = world();
     let mut done = 0;
+    for sc in scenarios() {
+        let m = json!({"kind": sc["kind"], "pre": sc["pre"], "nc": sc["nc"], "ins": sc["ins"]});
+        let r = eval(&mut w, &m);
+        if r.get("skip").is_some() {
+            continue;
+        }
+        out.emit(&json!({"m": m, "scenario": sc["scenario"], "static": r["static"], "run": r["run"]}));
+    }
     while done < n {
         let m = gen_manifest(&mut rng);
         let r = eval(&mut w, &m);
